@@ -78,6 +78,7 @@ class Struct:
     fields: dict
     pytype: object = None
     default: object = None     # value of unknown attributes (None -> TOP)
+    cls: object = None         # ClassInfo: methods resolve to bound package functions
 
 
 @dataclasses.dataclass
@@ -90,6 +91,7 @@ class Meth:
 class Fn:
     fi: FuncInfo
     closure: dict = dataclasses.field(default_factory=dict)
+    bound: object = None
 
 
 @dataclasses.dataclass(frozen=True)
@@ -580,6 +582,8 @@ class Interp:
             if isinstance(op, (ast.Eq, ast.NotEq)):
                 l = r
                 continue
+            if isinstance(op, (ast.In, ast.NotIn)) and ra is not TOP and NoneT in ra:
+                frame.raises.add(Raised('TypeError', type(op).__name__, ('NoneType',), True, e.lineno))
             self.sample(type(op).__name__, f, [l, r], frame, e)
             l = r
         return A(bool)
@@ -605,6 +609,12 @@ class Interp:
         if isinstance(base, Struct):
             if attr in base.fields:
                 return base.fields[attr]
+            if base.cls is not None:
+                m = self.P.find_method(base.cls, attr)
+                if isinstance(m, FuncInfo):
+                    if any(isinstance(d, ast.Name) and d.id == 'singledispatchmethod' for d in m.node.decorator_list):
+                        return TOP
+                    return Fn(m, {}, base)
             if base.pytype is not None:
                 return self.getattr_value(A(base.pytype), attr, frame, node)
             return base.default if base.default is not None else TOP
@@ -787,6 +797,8 @@ class Interp:
         if isinstance(f, Fn):
             if args is None:
                 return TOP
+            if f.bound is not None:
+                args = [f.bound] + list(args)
             return self.call_function(f.fi, args, kw, frame, node, f.closure)
         if isinstance(f, Meth):
             return self.call_method(f, args or [], kw, frame, node)
@@ -963,6 +975,18 @@ class Interp:
                 return TOP
             if isinstance(tgt, tuple) and tgt[0] == 'assign':
                 m, expr = tgt[1], tgt[2]
+                # parser.ast: `Name = node('Name', 'field ...')` manufactures a dataclass
+                if (isinstance(expr, ast.Call) and isinstance(expr.func, ast.Name) and expr.func.id == 'node'
+                        and len(expr.args) == 2 and all(isinstance(a, ast.Constant) for a in expr.args)
+                        and self.reg is not None):
+                    key = f'{m.name}:{expr.args[0].value}'
+                    if key not in self.reg._synth:
+                        base = m.classes.get('Node')
+                        bases = (self.reg.synth(base),) if base is not None else (object,)
+                        t = type(expr.args[0].value, bases, {'__module__': m.name})
+                        t.__annotations__ = {f: typing.Any for f in expr.args[1].value.split()}
+                        self.reg._synth[key] = t
+                    return Obj(self.reg._synth[key])
                 fr = Frame()
                 return self.ev(expr, {'__globals__': lambda n, _m=m: self.global_value(_m, n)}, fr)
             # a package module: attribute access resolves further
